@@ -109,8 +109,13 @@ def bounded_namespaces(tier, seed):
                      C.op("/ns2", "get", "get_ns", ["ns"]), C.op("/ns3", "get", "get-ns", ["ns"]),
                      # colliding operation ids on operations whose tags are different SPELLINGS of one tag (one client class), and on an untagged one
                      C.op("/u1", "get", "get-user", ["Users"]), C.op("/u2", "get", "get_user", ["users"]), C.op("/u3", "get", "getUser", ["USERS"]),
-                     C.op("/d1", "get", "list-it", None), C.op("/d2", "get", "list_it", ["Default"])],
+                     C.op("/d1", "get", "list-it", None), C.op("/d2", "get", "list_it", ["Default"]),
+                     # two schemas whose names give ONE class name, each used by an operation of its own
+                     C.op("/fb1", "get", "getFb1", ["fb"], responses={"200": C.resp_json(C.ref("Foo-Bar"))}), C.op("/fb2", "get", "getFb2", ["fb"], responses={"200": C.resp_json(C.ref("foo_bar"))}),
+                     C.op("/em1", "post", "postEm", ["fb"], None, C.body_json(C.ref("Email")), {"200": C.resp_json(C.ref("email"))})],
               {"Thing": C.obj({p: C.PRIMS["str"] for p in props}, ["user-id-2"]), "thing": C.obj({"a": C.PRIMS["str"]}), "THING": C.obj({"b": C.PRIMS["str"]}),
+               "Foo-Bar": C.obj({"only_in_dashed": C.PRIMS["str"]}), "foo_bar": C.obj({"only_in_snake": C.PRIMS["int"]}),
+               "Email": C.obj({"only_in_upper": C.PRIMS["str"]}), "email": C.obj({"only_in_lower": C.PRIMS["bool"]}),
                "Col": {"type": "string", "enum": ["a-b", "a b", "a_b", "A_B", "1", "-1", ""]}, **{k: {"type": ("integer" if isinstance(v[0], int) else "string"), "enum": v} for k, v in ENUMS.items()}})
     base = None
     failures, n = [], 0
@@ -137,6 +142,20 @@ def bounded_namespaces(tier, seed):
                     continue
                 if cls.name.lower().startswith("thing") and len(flds) not in (1, len(props)):
                     failures.append({"id": "bounded:namespace:fields-dropped", "detail": f"{cls.name}: {len(flds)} fields for {len(props)} properties: {flds}", "input": {}})
+        # referenced schemas with colliding class names: each keeps a class of its own (its marker field is found in exactly one class, the classes differ)
+        owners = {}
+        for f in sorted(os.listdir(mdir)):
+            if f.endswith(".py") and f != "__init__.py":
+                for cls in [c for c in pkgcheck.parse(os.path.join(mdir, f)).body if isinstance(c, ast.ClassDef)]:
+                    for x in cls.body:
+                        if isinstance(x, ast.AnnAssign) and isinstance(x.target, ast.Name) and x.target.id.startswith("only_in_"):
+                            owners.setdefault(x.target.id, []).append(f"{f}:{cls.name}")
+        for a, b in (("only_in_dashed", "only_in_snake"), ("only_in_upper", "only_in_lower")):
+            oa, ob = owners.get(a, []), owners.get(b, [])
+            # (a schema emitted twice under two class names is C02's "exactly one model", not judged here: each schema needs SOME class no other schema shares)
+            if not oa or not ob or set(oa) & set(ob) or {x.split(":")[1] for x in oa} & {x.split(":")[1] for x in ob}:
+                failures.append({"id": f"bounded:namespace:referenced-schemas-merge:{a[8:]}-{b[8:]}", "detail": f"marker fields {a} in {oa}, {b} in {ob}: the two schemas do not each have a class of their own",
+                                 "input": {"schemas": [a, b]}})
         ep = pkgcheck.parse(os.path.join(base, "nsp", "endpoints", "ns.py"))
         for cls in [c for c in ep.body if isinstance(c, ast.ClassDef) and not c.name.endswith("Protocol")]:
             for fn in [x for x in cls.body if isinstance(x, ast.AsyncFunctionDef) and x.name == "get_ns"]:
